@@ -159,7 +159,7 @@ def random_entries(pattern, rng, l, first):
         elif s == 'F':
             t = rng.random()
             if t < 0.3:
-                ent.append((i, rng.choice(VALUES + [rng.getrandbits(256), rng.getrandbits(255)])))
+                ent.append((i, rng.choice(VALUES + [rng.getrandbits(256), rng.getrandbits(255), wkd.big_id(rng), wkd.big_id(rng)])))
             elif t < 0.45:
                 ent.append((i, None))
         else:
